@@ -17,6 +17,7 @@ Section Statements.
 Context {B W ST : Type}.
 Variable wi : wire B W.
 Variable ops : stateops B ST.
+Variable qcap : Z.   (* capacity of the oversize queue: EVERY capacity (tuning, not behaviour) *)
 Variable inv : ST -> Prop.
 Variable ge : ST -> ST -> Prop.
 Variable live : Z -> ST -> ST.
@@ -37,18 +38,18 @@ Proof. intros [Hp _] Hw. rewrite (notify_wrapped wi ops Hp now k b w p Hw). refl
 (* ---- size_routing: exactly the threshold MaxGossipPacketSize/2 on the encoded Part decides the sender ---- *)
 Theorem c19_size_routing_small (c : chan W) b w :
   wrap wi (ch_key c) b = Some w -> wlen wi w <= MaxGossipPacketSize / 2 ->
-  broadcast wi c b = (c, [ESend w]).
-Proof. exact (broadcast_small wi c b w). Qed.
+  broadcast wi qcap c b = (c, [ESend w]).
+Proof. exact (broadcast_small wi qcap c b w). Qed.
 
 Theorem c19_size_routing_oversized (c : chan W) b w :
   wrap wi (ch_key c) b = Some w -> MaxGossipPacketSize / 2 < wlen wi w ->
-  snd (broadcast wi c b) = [] /\
-  ((Z.of_nat (length (ch_queue c)) < oversize_queue_cap /\
-    ch_queue (fst (broadcast wi c b)) = ch_queue c ++ [w] /\ ch_dropped (fst (broadcast wi c b)) = ch_dropped c)
+  snd (broadcast wi qcap c b) = [] /\
+  ((Z.of_nat (length (ch_queue c)) < qcap /\
+    ch_queue (fst (broadcast wi qcap c b)) = ch_queue c ++ [w] /\ ch_dropped (fst (broadcast wi qcap c b)) = ch_dropped c)
    \/
-   (oversize_queue_cap <= Z.of_nat (length (ch_queue c)) /\
-    ch_queue (fst (broadcast wi c b)) = ch_queue c /\ ch_dropped (fst (broadcast wi c b)) = ch_dropped c + 1)).
-Proof. exact (broadcast_oversized wi c b w). Qed.
+   (qcap <= Z.of_nat (length (ch_queue c)) /\
+    ch_queue (fst (broadcast wi qcap c b)) = ch_queue c /\ ch_dropped (fst (broadcast wi qcap c b)) = ch_dropped c + 1)).
+Proof. exact (broadcast_oversized wi qcap c b w). Qed.
 
 (* the worker passes a queued message to sendReliable once per current peer *)
 Theorem c19_oversized_to_every_peer e (c c' : chan W) evs :
@@ -61,19 +62,19 @@ Proof. exact (worker_take_all_peers e c c' evs). Qed.
    counted by the dropped counter, or still queued, or was taken by the worker; and the counter moves exactly when
    a message is dropped (queue full). ---- *)
 Theorem c19_oversize_never_silent (l : list (cact (B := B))) (c : chan W) :
-  total wi (offered_over wi) c l + pending c = pending (fst (cact_run wi c l)) + total wi taken c l.
-Proof. exact (chan_conservation wi l c). Qed.
+  total wi qcap (offered_over wi) c l + pending c = pending (fst (cact_run wi qcap c l)) + total wi qcap taken c l.
+Proof. exact (chan_conservation wi qcap l c). Qed.
 
 Theorem c19_drop_counter_exact (c : chan W) (a : cact (B := B)) :
-  ch_dropped (fst (cact_step wi c a)) = ch_dropped c \/
-  (ch_dropped (fst (cact_step wi c a)) = ch_dropped c + 1 /\ offered_over wi c a = 1 /\
-   oversize_queue_cap <= Z.of_nat (length (ch_queue c)) /\ ch_queue (fst (cact_step wi c a)) = ch_queue c).
-Proof. exact (cact_step_dropped wi c a). Qed.
+  ch_dropped (fst (cact_step wi qcap c a)) = ch_dropped c \/
+  (ch_dropped (fst (cact_step wi qcap c a)) = ch_dropped c + 1 /\ offered_over wi c a = 1 /\
+   qcap <= Z.of_nat (length (ch_queue c)) /\ ch_queue (fst (cact_step wi qcap c a)) = ch_queue c).
+Proof. exact (cact_step_dropped wi qcap c a). Qed.
 
 (* everything either sender is ever given is the wrapping of a payload that was broadcast on this channel *)
 Theorem c19_channel_sends_only_wrapped_updates (l : list (cact (B := B))) key :
-  Forall (fun e => wrapped_of wi key (bcasts l) (ev_msg e)) (snd (cact_run wi (new_chan key) l)).
-Proof. exact (proj1 (chan_emits_only_wrapped wi l (new_chan key) [] (Forall_nil_2 _))). Qed.
+  Forall (fun e => wrapped_of wi key (bcasts l) (ev_msg e)) (snd (cact_run wi qcap (new_chan key) l)).
+Proof. exact (proj1 (chan_emits_only_wrapped wi qcap l (new_chan key) [] (Forall_nil_2 _))). Qed.
 
 (* ---- unknown_key_ignored ---- *)
 Theorem c19_unknown_key_ignored now k b (p : gmap string ST) parts :
